@@ -190,18 +190,22 @@ func run(r *h.Run, sc scenario) {
 			}
 			stopFlow := make(chan struct{})
 			defer close(stopFlow)
-			go func() {
-				for i := 0; ; i++ {
-					select {
-					case <-stopFlow:
-						return
-					case <-time.After(8 * time.Millisecond):
+			// three pumps at 2 ms: the gaps in the outbound stream stay far below the
+			// read timeout (60 ms) also when the machine is loaded
+			for pump := 0; pump < 3; pump++ {
+				go func() {
+					for i := 0; ; i++ {
+						select {
+						case <-stopFlow:
+							return
+						case <-time.After(2 * time.Millisecond):
+						}
+						if helper.Send(&packet.Publish{Message: packet.Message{Topic: "busy/x", Payload: []byte("tick")}}) != nil {
+							return
+						}
 					}
-					if helper.Send(&packet.Publish{Message: packet.Message{Topic: "busy/x", Payload: []byte("tick")}}) != nil {
-						return
-					}
-				}
-			}()
+				}()
+			}
 		case "blocked-on-token":
 			_ = v.Send(&packet.Publish{ID: 6, Message: packet.Message{Topic: "other/x", QOS: 2, Payload: []byte("x")}})
 			if _, err := bh.AwaitAck(v, packet.PUBREC, 6); err != nil {
